@@ -1,5 +1,5 @@
 (* C02 — serialization is total, size-exact, and layers never overwrite each other. *)
-From LT Require Import Base.Prelude Base.CInt Gen.Kernels Model.Serialize Model.TcpOpts Proofs.Serialize Proofs.TcpOpts.
+From LT Require Import Base.Prelude Base.CInt Gen.Kernels Model.Serialize Model.TcpOpts Proofs.Serialize Proofs.TcpOpts Model.TLV Proofs.TLV.
 Local Open Scope Z_scope.
 
 (* framework: if every layer's write keeps the buffer length and the inner region, serialize() has exactly size()
@@ -38,3 +38,15 @@ Example C02_nonvacuous :
   let os := [mkopt 2 2 [5; 180]; mkopt 8 0 []; mkopt 1 0 []] in
   Forall opt_wf os /\ tcp_header_size os = 28 /\ tcp_options_area os = [2; 4; 5; 180; 8; 2; 1; 0].
 Proof. cbn zeta. split; [|split; reflexivity]. repeat constructor; cbn; lia. Qed.
+
+(* the cached option-area size of the classes that share the type-length-value option layout (DHCP, DHCPv6, 802.11 management,
+   ICMPv6, PPPoE): after EVERY history of add_option / remove_option calls (remove = the first option with that code, nothing
+   when there is none) the counter the class keeps equals the number of octets its writer emits for the options it holds *)
+Theorem C02_tlv_cached_size_exact : forall f hs, wf_fmt f -> snd (hrun f hs) = zlen (tlv_encode f (fst (hrun f hs))).
+Proof. exact cached_size_exact. Qed.
+Print Assumptions C02_tlv_cached_size_exact.
+
+Example C02_tlv_history_nonvacuous :
+  hrun fmt_dhcpv6 [HAdd (1, [1;2]); HAdd (8, [0;7]); HAdd (1, [9]); HRem 1; HRem 77] = ([(8, [0;7]); (1, [9])], 11) /\
+  tlv_encode fmt_dhcpv6 [(8, [0;7]); (1, [9])] = [0;8;0;2;0;7; 0;1;0;1;9].
+Proof. split; reflexivity. Qed.
